@@ -138,12 +138,23 @@ def run_check(pid, tier):
     violations = 0
     notes = []
 
-    # ---- 1. Lean obligations
-    ok, log, t_build = core.lean_build(clean=(tier == 'thorough' and os.environ.get('VERIF_CLEAN_BUILD', '1') == '1'
-                                              and getattr(prop, 'CLEAN_BUILD_OK', True) and False))
-    audit = core.axiom_audit(pid) if ok else []
-    forb = core.forbidden_tokens()
+    # ---- 0. the translated kernels are regenerated from the working tree (tie of the Gen layer to the source)
+    import genval
+    try:
+        core.sync_translation()
+    except Exception as e:  # noqa
+        traceback.print_exc()
+        raise core.HarnessError('translator crashed: %r' % (e,))
+    # ---- 1. Lean obligations: driver first, then every module of the property on its own
+    t0 = time.time()
     reg = core.registry().get(pid, {})
+    run_mods = ['MsmVerif.Gen.%sRun' % m for m, _k in genval.KERNELS_OF.get(pid, [])
+                if not core.TRANSLATION['problems'].get(m + '.lean')]
+    ok, log, _ = core.lean_build(targets=['MsmVerif.Driver.Ops'])
+    built = core.lean_build_modules(reg.get('modules', []) + run_mods) if ok else {}
+    t_build = time.time() - t0
+    audit = core.axiom_audit(pid, built) if ok else []
+    forb = core.forbidden_tokens()
     obligations = len(reg.get('theorems', []))
     discharged = sum(1 for a in audit if a['ok']) if ok and not forb else 0
     lean_broken = (not ok) or bool(forb) or discharged != obligations
@@ -178,9 +189,21 @@ def run_check(pid, tier):
             viol_all += v
             dis_all += d
 
+        # ---- 2b. translator validation: translated kernels vs the real kernels on the same inputs
+        gen_summary, gen_dis = {}, []
+        if genval.KERNELS_OF.get(pid):
+            t0 = time.time()
+            runnable = {m: built.get('MsmVerif.Gen.%sRun' % m, (False, ''))[0] for m, _k in genval.KERNELS_OF[pid]}
+            probs = dict(core.TRANSLATION['problems'])
+            for m, okm in runnable.items():
+                if not okm and not probs.get(m + '.lean'):
+                    probs[m + '.lean'] = ['translated module does not compile: ' + built.get('MsmVerif.Gen.%sRun' % m, (False, 'not built'))[1][-400:]]
+            gen_summary, gen_dis = genval.validate(pid, 'thorough' if tier == 'thorough' else 'quick', core.Rng(seed + 7), probs)
+            stats['t_genval'] = time.time() - t0
+
         # ---- 3. search when the correspondence (or a Lean obligation) broke without a property failure
         searched = 0
-        if (dis_all or lean_broken) and not viol_all:
+        if (dis_all or lean_broken or gen_dis) and not viol_all:
             srng = core.Rng(seed + 1)
             sb = []
             for c in prop.cases('search', srng, 4):
@@ -228,9 +251,12 @@ def run_check(pid, tier):
             out_lines.append('VIOLATION property=%s replay=%s' % (pid, path))
             violations = len(new)
             reported.append(path)
-    if not reported and (dis_all or lean_broken):
+    if not reported and (dis_all or lean_broken or gen_dis):
         path = core.replay_path(pid, '%s-%d-unproved' % (tier, seed))
         what = {}
+        if gen_dis:
+            what['translation'] = {'relation': 'translated kernel (Gen/*.lean from the working tree) = real kernel on the same inputs',
+                                   'diverging': gen_dis[:5], 'translator_problems': core.TRANSLATION['problems']}
         if lean_broken:
             what['lean'] = {'build_ok': ok, 'build_log_tail': log[-1500:] if not ok else '',
                             'forbidden_tokens': forb,
@@ -243,7 +269,7 @@ def run_check(pid, tier):
         core.write_json(path, {'property': pid, 'kind': 'no-longer-shown-to-hold', 'seed': seed, 'tier': tier,
                                'no_longer_checks': what, 'search_evaluations': searched})
         out_lines.append('VIOLATION property=%s replay=%s no-failing-input-found' % (pid, path))
-        violations = max(1, len(dis_all))
+        violations = max(1, len(dis_all) + len(gen_dis))
 
     wall = time.time() - t_start
     trusted = ['Lean 4.33.0 kernel' + (' (+ leanchecker re-check)' if leanchecker else ''),
@@ -254,7 +280,7 @@ def run_check(pid, tier):
     cov = {
         'obligations': max(obligations, 1) if obligations else 0,
         'discharged': discharged,
-        'checker_cmd': 'cd lean && lake build && lake env lean .lake/audit/Audit_%s.lean  (#print axioms per theorem)' % pid,
+        'checker_cmd': 'python3 harness/py2lean.py --check && cd lean && lake build && lake env lean .lake/audit/Audit_%s_<Module>.lean  (#print axioms per theorem)' % pid,
         'trusted_base': trusted,
         'theorems': [{'name': a['name'], 'axioms': a['axioms'], 'ok': a['ok'], 'statement': a['statement']} for a in audit],
         'forbidden_token_hits': forb,
@@ -266,6 +292,12 @@ def run_check(pid, tier):
         'samples': stats['samples'][:3] or [{'note': 'no non-trivial sample'}],
         'input_distribution': stats['dist'],
         'anchors_drifted': drift,
+        'translation': {'regenerated_from_source': core.TRANSLATION['regenerated'],
+                        'identical_to_committed_gen': core.TRANSLATION['identical_to_committed'],
+                        'changed_files': core.TRANSLATION['changed_files'], 'problems': core.TRANSLATION['problems'],
+                        'modules_built': {m: v[0] for m, v in built.items()}},
+        'translator_validation': gen_summary,
+        'translator_disagreements': len(gen_dis),
         'budget_boost': boost,
         'disagreements': len(dis_all),
         'not_run_after_repeated_crashes': stats.get('not_run', 0),
@@ -282,7 +314,7 @@ def run_check(pid, tier):
     for l in out_lines:
         print(l)
     print('%s %s: %d cases, %d non-trivial distinct, %d/%d obligations, %d disagreements, %d violations, %.1fs'
-          % (pid, tier, stats['evaluations'], len(stats['nontrivial']), discharged, obligations, len(dis_all),
+          % (pid, tier, stats['evaluations'], len(stats['nontrivial']), discharged, obligations, len(dis_all) + len(gen_dis),
              violations, wall))
     return 1 if any(l.startswith('VIOLATION') for l in out_lines) else 0
 
